@@ -262,7 +262,16 @@ class ExprParser(RecursiveDescent):
             node = self.identifier()
         elif self.token.typ in ["REAL", "INTEGER"]:
             self.enter("constant")
-            node = Constant(self.token.value)
+            value = self.token.value
+            if (self.token.typ == "INTEGER" and len(value) > 1
+                and value[0] == "0"):
+                # C octal literal. Keep its value since the text is also
+                # used for Fortran and Python where 010 is ten.
+                try:
+                    value = str(int(value, 8))
+                except ValueError:
+                    self.error_msg("Invalid octal constant '{}'".format(value))
+            node = Constant(value)
             self.next()
         elif self.have("LPAREN"):
             node = ParenExpr(self.expression())
